@@ -225,12 +225,14 @@ class RefRepo:
             data = None
         return {'chunks': chunks, 'data': data, 'raw': body}
 
-    def encode_snapshot(self, chunks, data):
+    def encode_snapshot(self, chunks, data, rng=None):
         if not self.encrypted:
             blob = dumps({'chunks': chunks, 'data': data})
         else:
-            enc_data = self.aead.encrypt(dumps(data), self.userkey)
-            enc_chunks = self.aead.encrypt(dumps(chunks), self.fast_kdf(self.hash(enc_data)))
+            n1 = rng.randbytes(self.aead.nonce_bytes) if rng is not None else None
+            n2 = rng.randbytes(self.aead.nonce_bytes) if rng is not None else None
+            enc_data = self.aead.encrypt(dumps(data), self.userkey, n1)
+            enc_chunks = self.aead.encrypt(dumps(chunks), self.fast_kdf(self.hash(enc_data)), n2)
             blob = dumps({'chunks': enc_chunks, 'data': enc_data})
         return self.snapshot_location(blob), blob
 
